@@ -250,3 +250,161 @@ func Mutate(r *core.Rand, b []byte) []byte {
 	}
 	return out
 }
+
+func isZigZag(t reflect.Type, num int) bool {
+	if t.Kind() != reflect.Struct {
+		return false
+	}
+	for _, fi := range FieldsOf(t) {
+		if fi.Number == num {
+			return fi.Wire == "zigzag32" || fi.Wire == "zigzag64"
+		}
+	}
+	return false
+}
+
+// nonMinimalVarint encodes v with extra continuation bytes (still a legal varint of <= 10 bytes).
+func nonMinimalVarint(r *core.Rand, v uint64) []byte {
+	b := protowire.AppendVarint(nil, v)
+	if len(b) >= 10 || !r.Chance(1, 3) {
+		return b
+	}
+	extra := r.Range(1, 10-len(b))
+	b[len(b)-1] |= 0x80
+	for i := 0; i < extra-1; i++ {
+		b = append(b, 0x80)
+	}
+	return append(b, 0x00)
+}
+
+// Reencode rewrites a valid encoding of a message of Go type t into another legal encoding of
+// the same content: fields in a different order (order within one field number preserved),
+// non-minimal varints for tags, lengths and values, an overridden earlier occurrence of singular
+// scalar fields, singular embedded messages split into two occurrences, map entries with the
+// value before the key; recursively.  stats counts what was applied.
+func Reencode(r *core.Rand, b []byte, t reflect.Type, custom func(reflect.Type) bool, stats map[string]int) []byte {
+	t = baseType(t)
+	fs, ok := Fields(b)
+	if !ok {
+		return b
+	}
+	types := map[int]reflect.Type{}
+	if t.Kind() == reflect.Struct {
+		for _, fi := range FieldsOf(t) {
+			types[fi.Number] = fi.Type
+		}
+	}
+	type piece struct {
+		num int
+		raw []byte
+	}
+	var pieces []piece
+	emit := func(num int, typ protowire.Type, payload []byte) []byte {
+		var out []byte
+		out = append(out, nonMinimalVarint(r, protowire.EncodeTag(protowire.Number(num), typ))...)
+		switch typ {
+		case protowire.VarintType:
+			v, _ := protowire.ConsumeVarint(payload)
+			out = append(out, nonMinimalVarint(r, v)...)
+		case protowire.BytesType:
+			out = append(out, nonMinimalVarint(r, uint64(len(payload)))...)
+			out = append(out, payload...)
+		default:
+			out = append(out, payload...)
+		}
+		return out
+	}
+	for _, f := range fs {
+		ft, known := types[f.Num]
+		typ := protowire.Type(f.Typ)
+		payload := b[f.ValStart:f.End]
+		if typ == protowire.VarintType || typ == protowire.Fixed32Type || typ == protowire.Fixed64Type {
+			_, _, tn := protowire.ConsumeTag(b[f.Start:])
+			payload = b[f.Start+tn : f.End]
+		}
+		if !known {
+			pieces = append(pieces, piece{f.Num, emit(f.Num, typ, payload)})
+			continue
+		}
+		bt := baseType(ft)
+		singular := !(bt.Kind() == reflect.Map || (bt.Kind() == reflect.Slice && bt.Elem().Kind() != reflect.Uint8))
+		switch {
+		case typ == protowire.BytesType && bt.Kind() == reflect.Struct && isPlainMessage(bt, custom):
+			inner := Reencode(r, payload, bt, custom, stats)
+			ifs, iok := Fields(inner)
+			if singular && iok && len(ifs) >= 2 && r.Chance(1, 3) {
+				cut := ifs[r.Range(1, len(ifs)-1)].Start
+				pieces = append(pieces, piece{f.Num, emit(f.Num, typ, inner[:cut])}, piece{f.Num, emit(f.Num, typ, inner[cut:])})
+				stats["split-message"]++
+			} else {
+				pieces = append(pieces, piece{f.Num, emit(f.Num, typ, inner)})
+			}
+		case typ == protowire.BytesType && bt.Kind() == reflect.Slice && bt.Elem().Kind() != reflect.Uint8 && isPlainMessage(bt.Elem(), custom):
+			pieces = append(pieces, piece{f.Num, emit(f.Num, typ, Reencode(r, payload, bt.Elem(), custom, stats))})
+		case typ == protowire.BytesType && bt.Kind() == reflect.Map && len(payload) > 0:
+			entry := reflect.StructOf([]reflect.StructField{{Name: "Key", Type: bt.Key()}, {Name: "Elem", Type: bt.Elem()}})
+			inner := Reencode(r, payload, entry, custom, stats)
+			pieces = append(pieces, piece{f.Num, emit(f.Num, typ, inner)})
+		default:
+			if singular && r.Chance(1, 5) && typ != protowire.BytesType {
+				// an earlier occurrence with another value: the last one wins
+				var other []byte
+				switch typ {
+				case protowire.VarintType:
+					// a value that is itself a legal encoding for the field's type
+					x := r.Uint64B()
+					switch bt.Kind() {
+					case reflect.Bool:
+						x &= 1
+					case reflect.Uint32:
+						x = uint64(uint32(x))
+					case reflect.Int32:
+						if ztag := types[f.Num]; ztag != nil && isZigZag(t, f.Num) {
+							x = uint64(uint32(x))
+						} else {
+							x = uint64(int64(int32(x)))
+						}
+					}
+					other = protowire.AppendVarint(nil, x)
+				case protowire.Fixed32Type:
+					other = protowire.AppendFixed32(nil, uint32(r.Uint64()))
+				case protowire.Fixed64Type:
+					other = protowire.AppendFixed64(nil, r.Uint64())
+				}
+				pieces = append(pieces, piece{f.Num, emit(f.Num, typ, other)})
+				stats["overridden-scalar"]++
+			}
+			pieces = append(pieces, piece{f.Num, emit(f.Num, typ, payload)})
+		}
+	}
+	// random interleaving that keeps the relative order of pieces with the same number
+	if len(pieces) > 1 && r.Chance(2, 3) {
+		groups := map[int][]piece{}
+		var order []int
+		for _, p := range pieces {
+			if _, ok := groups[p.num]; !ok {
+				order = append(order, p.num)
+			}
+			groups[p.num] = append(groups[p.num], p)
+		}
+		pieces = pieces[:0]
+		for len(order) > 0 {
+			i := r.Intn(len(order))
+			n := order[i]
+			pieces = append(pieces, groups[n][0])
+			groups[n] = groups[n][1:]
+			if len(groups[n]) == 0 {
+				order = append(order[:i], order[i+1:]...)
+			}
+		}
+		stats["reordered"]++
+	}
+	var out []byte
+	for _, p := range pieces {
+		out = append(out, p.raw...)
+	}
+	if len(out) != len(b) {
+		stats["non-minimal-varints"]++
+	}
+	return out
+}
